@@ -20,7 +20,7 @@ from .. import core
 from ..core import enc, frac
 from RunFeemsSim.pms_basic import PmsLoadTable, min_load_table_dict
 
-THEOREMS = ["sufficient", "all_on_otherwise", "minimal", "monotone", "nonempty", "loading",
+THEOREMS = ["sufficient", "all_on_otherwise", "minimal", "monotone", "nonempty", "loading", "loading_with_pti", "loading_legacy_overload",
             "eq_nonempty", "eq_sufficient", "eq_minimal", "eq_monotone"]
 
 REL = 1e-9
@@ -246,7 +246,8 @@ def run_simulation_case(ctx, rng, idx, case=None):
     from feems.components_model.utility import IntegrationMethod
     from RunFeemsSim.pms_basic import PmsLoadTable, PmsLoadTableSimulationInterface, get_min_load_table_dict_from_feems_system
     n_swb = int(rng.choice([1, 2, 3]))
-    spec = plants.gen_electric_plant(rng, n_swb=n_swb, with_pti=False, with_storage=False, source_kinds=("genset", "generator"))
+    with_pti = bool(rng.random() < 0.4)          # a PTI/PTO with a given power on the bus: part of the load the sources carry (D109)
+    spec = plants.gen_electric_plant(rng, n_swb=n_swb, with_pti=with_pti, with_storage=False, source_kinds=("genset", "generator"))
     if rng.random() < 0.5:
         spec["order"] = [int(i) for i in rng.permutation(len(spec["electric"]))]
     f_pct = float(rng.choice([50.0, 80.0, 100.0]))
@@ -262,7 +263,13 @@ def run_simulation_case(ctx, rng, idx, case=None):
             loads[c["name"]] = [float(np.round(rng.uniform(0.2, 0.9) * cap, 1))]                      # one value for the whole series
         else:
             loads[c["name"]] = [float(np.round(rng.uniform(0.0, 0.9) * cap, 1)) for _ in range(n)]
-    return exec_run_simulation_case(ctx, {"kind": "run_simulation", "spec": spec, "loads": loads, "fraction": f_pct, "n": n, "const_swb": const_swb})
+    pti = {}
+    for c in spec["electric"]:
+        if c["kind"] == "pti_pto":
+            lim = min(0.8 * c["rated"], 0.3 * total)
+            pti[c["name"]] = {"power": [float(np.round(rng.uniform(-0.3, 1.0) * lim, 1)) for _ in range(n)],
+                              "mode": [float(rng.random() < 0.85) for _ in range(n)]}
+    return exec_run_simulation_case(ctx, {"kind": "run_simulation", "spec": spec, "loads": loads, "fraction": f_pct, "n": n, "const_swb": const_swb, "pti": pti})
 
 
 def exec_run_simulation_case(ctx, case):
@@ -281,7 +288,23 @@ def exec_run_simulation_case(ctx, case):
         plant = plants.Plant(spec)
         for c in cons:
             plant.by_name[c["name"]].set_power_input_from_output(np.array(loads[c["name"]], dtype=float))
+        for name, d in (case.get("pti") or {}).items():
+            obj = plant.by_name[name]
+            obj.status = np.ones(n, dtype=bool)
+            obj.load_sharing_mode = np.array(d["mode"], dtype=float)
+            obj.power_input = np.array(d["power"], dtype=float)
+        ctx.count("run_simulation_pti_pto_on_the_bus", bool(case.get("pti")))
         plant.electric.set_time_interval(np.full(n, 60.0), integration_method=IntegrationMethod.sum_with_time)
+        # the load the table is asked with vs the model's `busLoad` (consumers + given PTI/PTO power), summed over the switchboards
+        if ctx.model_available:
+            asked = plant.electric.get_sum_consumption_kw_sources_switchboard()
+            asked_total = sum(np.broadcast_to(np.asarray(v, dtype=float), (n,)) for v in asked.values())
+            for t in range(n):
+                cons_t = sum(float(np.broadcast_to(np.asarray(plant.by_name[c["name"]].power_input, dtype=float), (n,))[t]) for c in cons)
+                m = core.dec(ctx.model.call("pms.bus_load", consumers=enc(cons_t), pti_power=[enc(d["power"][t]) for d in (case.get("pti") or {}).values()],
+                                            pti_mode=[enc(d["mode"][t]) for d in (case.get("pti") or {}).values()]))
+                if not core.close(m, float(asked_total[t]), scale=max(1.0, total)):
+                    ctx.fail("correspondence", "bus-load", f"step {t}: model {float(m)} kW, the table is asked with {float(asked_total[t])} kW", where)
         table = PmsLoadTable(min_load2on_pattern=get_min_load_table_dict_from_feems_system(system=plant.electric, maximum_allowed_genset_load_percentage=f_pct))
         run_simulation(plant.electric, PmsLoadTableSimulationInterface(n_bus_ties=len(spec.get("bus_ties", [])), pms_load_table=table))
     except Exception as e:
@@ -291,6 +314,8 @@ def exec_run_simulation_case(ctx, case):
     demand = np.zeros(n)
     for c in cons:
         demand = demand + np.broadcast_to(np.asarray(plant.by_name[c["name"]].power_input, dtype=float), (n,))
+    for name, d in (case.get("pti") or {}).items():      # what a PTI/PTO is given to take from (or feed into) the bus
+        demand = demand + np.where(np.array(d["mode"]) != 0, np.array(d["power"]) * np.array(d["mode"]), 0.0)
     for t in range(n):
         running = [c for c in srcs if np.broadcast_to(plant.by_name[c["name"]].status, (n,))[t]]
         if not running:
